@@ -7,12 +7,15 @@
 EXTENDS Asm, Json
 CONSTANTS MaxLines, Selectors, Sizes
 Syms == {"foo", "ba_r9"}
+\* a symbol of 130 bytes (symbols may be up to 255 bytes long: the length prefix is ONE byte also above 127)
+LongSym == "looooooooooooooooooooooooooooooooooooooooooooooooooooooooooooooooooooooooooooooooooooooooooooooooooooooooooooooooooooooooooooooong"
 L(op, a, b, n, m, c) == [op |-> op, a |-> a, b |-> b, n |-> n, m |-> m, c |-> c]
 Lines == {L(o, "", "", 0, 0, "") : o \in {"HALT", "MSINK"}}
          \cup {L(o, s, "", 0, 0, "") : o \in {"RELOAD", "MAP"}, s \in Syms}
          \cup {L("MOVE", s, "", 0, 0, "") : s \in Syms \cup {"_", "^", ".", ">", "<"}}
          \cup {L("INCMP", s, sel, 0, 0, "") : s \in {"foo", "_", "^"}, sel \in Selectors}
          \* the builtin node name _catch: the one legal multi-character symbol that begins with a special character
+         \cup {L("LOAD", LongSym, "", 5, 0, ""), L("MOVE", LongSym, "", 0, 0, ""), L("INCMP", LongSym, "1", 0, 0, ""), L("MOUT", LongSym, "1", 0, 0, "")}
          \cup {L("MOVE", "_catch", "", 0, 0, ""), L("INCMP", "_catch", "*", 0, 0, ""), L("INCMP", "_catch", "0", 0, 0, ""),
                L("CATCH", "_catch", "", 8, 1, ""), L("DOWN", "_catch", "9", 0, 0, "lbl")}
          \cup {L(o, "lbl", sel, 0, 0, "") : o \in {"MOUT", "MNEXT", "MPREV"}, sel \in Selectors \ {"*"}}
